@@ -197,12 +197,13 @@ type TermCtx struct {
 	axioms  map[string][]string // symbol -> axioms text emitted when symbol is used
 	freshN  map[string]int
 	symDeps map[string][]string // define-fun name -> symbols it references (other defs / funcs)
+	defSigs map[string]*FuncSig // signatures of define-funs that may be abstracted to uninterpreted functions
 }
 
 func NewTermCtx() *TermCtx {
 	return &TermCtx{Sorts: NewSortTable(), terms: map[string]*Term{}, consts: map[string]*Sort{},
 		funcs: map[string]*FuncSig{}, defs: map[string]string{}, axioms: map[string][]string{}, freshN: map[string]int{},
-		symDeps: map[string][]string{}}
+		symDeps: map[string][]string{}, defSigs: map[string]*FuncSig{}}
 }
 
 func (c *TermCtx) mk(op, name string, sort *Sort, args []*Term, bound []*Term, iv *big.Int) *Term {
@@ -843,6 +844,7 @@ func (c *TermCtx) printTerm(sb *strings.Builder, t *Term, names map[int]string) 
 }
 
 type Query struct {
+	Abstract map[string]bool // define-funs to emit as uninterpreted functions (sound for unsat answers only)
 	Name    string
 	Assume  []*Term
 	Goal    *Term // nil => satisfiability (cover/canary) query of the assumptions
@@ -985,6 +987,17 @@ func (c *TermCtx) Render(q *Query, wantModel bool) string {
 	// prelude define-funs in registration order
 	for _, n := range c.defOrd {
 		if usedSyms[n] {
+			if sig, ok := c.defSigs[n]; ok && q.Abstract[n] {
+				fmt.Fprintf(&sb, "(declare-fun %s (", smtSym(n))
+				for i, p := range sig.Params {
+					if i > 0 {
+						sb.WriteByte(' ')
+					}
+					sb.WriteString(p.Name)
+				}
+				fmt.Fprintf(&sb, ") %s)\n", sig.Ret.Name)
+				continue
+			}
 			sb.WriteString(c.defs[n])
 			sb.WriteByte('\n')
 		}
